@@ -4,6 +4,26 @@ import json, subprocess, sys
 
 CHECKS = {
  # id: (level category, engine, technique, level text, level note, design ref)
+ "C01": ("fault_enumeration", "duo (+exhaust)",
+         "deviation-bounded exhaustive fault-plan enumeration over two real sockets on a simulated network (paused clock), prefix oracle at every read",
+         "Two real UtpSockets with their real tasks run every scenario under EVERY plan of up to d drop/dup/delay deviations at any send index (iterative deviation bounding), plus a size-blackhole / EMSGSIZE path family with MTU probing active; at every poll_read return the position-coded bytes read must be a prefix of what the peer's poll_write accepted. A sample of lossy runs cannot give the 'no plan with <= d deviations corrupts the stream' statement this does.",
+         "Bounded: deviation count d, scenario library, MSS 10 / tiny buffers (plus 528..1452-byte MTU family); one seeded current-thread runtime (no sub-poll thread interleavings); SimNet and oracles trusted.",
+         "DESIGN.md 5 C01"),
+ "C02": ("fault_enumeration", "duo (+solo)",
+         "deviation-bounded exhaustive fault-plan enumeration (fair-lossy plans) with bounded-liveness and wire-silence oracles under a virtual clock",
+         "Every plan of up to d drop/dup/delay deviations after the handshake (d below the retransmission limit, hence fair) must complete: all scripted writes accepted, all accepted bytes read, flush/shutdown return Ok, within a virtual-time horizon; the fault-free plan must additionally satisfy the promptness clause (no wire silence > RTT + 40 ms while bytes are undelivered and the reader is parked; write / shutdown on an idle connection on the wire at the same virtual instant; FIN at the instant the last ACK arrives). The real 5 s tracing tick is part of the system, so missing wake-ups show as multi-second silences.",
+         "Liveness decided as bounded liveness (horizon 20 s, inactivity timeout configured 30 s); scenario library; deviation bound; known finding F3 (no persist timer) listed in known_findings.json.",
+         "DESIGN.md 5 C02"),
+ "C03": ("fault_enumeration", "duo",
+         "exhaustive enumeration of abort points (network cut, RESET, cancellation at every send index) and deviation-bounded loss patterns on the FIN exchange",
+         "For every send index of every scenario the network is cut, a RESET is delivered to either side, or either socket is cancelled; plus all plans of up to d drop/dup/delay deviations restricted to the closing packets. Oracles: flush/shutdown Ok only with a delivered ACK covering the bytes and the peer really reading them; EOF exactly at the byte position preceding the peer's FIN; every obliged call resolves within the bound; later writes on a dead connection fail.",
+         "Bound = 3 s inactivity + 6.2 s back-off + 1 s + 1 s slack; an idle endpoint whose peer vanishes silently is not obliged (no keep-alive, as the property words it: 'with data outstanding'); known finding F3-abort.",
+         "DESIGN.md 5 C03"),
+ "C08": ("fault_enumeration", "duo",
+         "deviation-bounded loss enumeration on closing packets over 3 connect/close cycles under a connection limit of 1, plus exhaustive abort-point enumeration",
+         "3 cycles of connect/transfer/close on one socket pair with max_live_vsocks=1 under every plan of up to d drop/dup deviations on the closing packets: each connection object must end within the bound after the application let go, nothing may be emitted for it afterwards, the table must be empty, and the next connect/accept must succeed; every cut/RESET/cancel point of every scenario: cancelled sockets' tasks end within 1 ms and their halves report errors.",
+         "Connection-object lifetime and table sizes read via hooks H4/H5 (reconnect under limit 1 confirms release black-box); chatty-peer and accept-cancel cases are covered by the solo / socket drivers.",
+         "DESIGN.md 5 C08"),
  "C09": ("model_checking", "exhaust+duo",
          "exhaustive enumeration of all 2^32 sequence-number pairs against true modular distance",
          "Every (new, old) pair of 16-bit values is evaluated on the real seq_nr_offset / SeqNr Sub / Ord and compared with true modular distance for every distance the default windows admit (1985 segments); antisymmetry and Ord/Sub consistency for all pairs. The space is finite and is covered completely, which no sample of pairs can do.",
